@@ -234,7 +234,12 @@ def run(ctx):
             bad = oracle(text, junked)
             if bad:
                 res.oracle_violations.append({"payload": {"base": text, "junked": junked, "junk": ins}, "what": "%s: %s" % (name, bad)})
-            for flag in (True, False):
+            deep = any(j.startswith(("X.((((", "X.[[[[")) for j in ins)
+            if deep:
+                # oracle only: the CPS regex matcher of the model needs minutes on a 3000-bracket line; the function that
+                # matters there (strip_brackets) is pinned to the source for every input
+                hist["deep_brackets_oracle_only"] = hist.get("deep_brackets_oracle_only", 0) + 1
+            for flag in ((True, False) if not deep else ()):
                 exp, _ = rm.impl_read(junked, ignore_header_errors=flag)
                 cases.append(rm.coq_case(junked, exp, ignore_header_errors=flag))
                 meta.append((name, junked, flag, ins))
